@@ -12,7 +12,7 @@ import (
 func init() { register("C04", true, runC04) }
 
 func runC04(c *Check) {
-	c.Explanation = "Decides only two structural clauses of C04 (that flat, cum and edge weights equal their definition over samples is value-level and out of static reach): the printers of the output forms the property names (text/top items, tree/peek, dot, callgrind, topproto, web top) obtain node, edge and tag values through FlatValue/CumValue/WeightValue, or read the raw sum together with its divisor, so the mean option divides the same way in every form (R1); the diff-base label that marks base samples is written, tested and removed with one and the same key and value, is removed only by the report's graph construction, and is left in place by the proto output so a saved diff reopens as a diff (R2); the report total is computed by one function that takes absolute values and, for diffs, only base samples (R3, shape only); the sample loops of newGraph and newTree skip a sample only when its mean-divisor contribution is zero as well (R4); the per-sample seen-sets of newGraph are updated with exactly the key that was tested (R5). Also: edge weight is added under a per-sample seen-set keyed by caller and callee (R5), computeTotal selects dividend and divisor together (R6), newTree gives a location without lines one empty line so it keeps its frame (R7). Also: a node with non-zero flat is never left out of the graph's node list (R9); every edge accumulation of the graph construction carries the mean divisor (R10); pseudo-frame lists are built in storage of their own (R11). Not decided: the numbers themselves, list/disasm/weblist value display under -mean."
+	c.Explanation = "Decides only two structural clauses of C04 (that flat, cum and edge weights equal their definition over samples is value-level and out of static reach): the printers of the output forms the property names (text/top items, tree/peek, dot, callgrind, topproto, web top) obtain node, edge and tag values through FlatValue/CumValue/WeightValue, or read the raw sum together with its divisor, so the mean option divides the same way in every form (R1); the diff-base label that marks base samples is written, tested and removed with one and the same key and value, is removed only by the report's graph construction, and is left in place by the proto output so a saved diff reopens as a diff (R2); the report total is computed by one function that takes absolute values and, for diffs, only base samples (R3, shape only); the sample loops of newGraph and newTree skip a sample only when its mean-divisor contribution is zero as well (R4); the per-sample seen-sets of newGraph are updated with exactly the key that was tested (R5). Also: edge weight is added under a per-sample seen-set keyed by caller and callee (R5), computeTotal selects dividend and divisor together (R6), newTree gives a location without lines one empty line so it keeps its frame (R7). Also: a node with non-zero flat is never left out of the graph's node list (R9); every edge accumulation of the graph construction carries the mean divisor (R10); pseudo-frame lists are built in storage of their own (R11). Round-I additions: a block of Aggregate guarded by 'some flag is off' tests no flag its guard does not name; newGraph keys nodes by binary only for raw, list, weblist, disasm and callgrind. Not decided: the numbers themselves, list/disasm/weblist value display under -mean."
 	p := c.P
 	// ---- R1 accessor discipline
 	printers := map[string]bool{
